@@ -71,6 +71,39 @@ check("C10",
       "model-checked on MCResponder. Querier side (known answers in the daemon's own queries) is judged by the browse monitor.",
       RESP_NOTE, RESP_TECH, "DESIGN.md section 7 C10")
 
+Q_NOTE = ("Trusts TLC, the simulation layer, the harness's independent packet reader and mechanical projections. Histories are seeded samples; "
+          "the ground-truth table (Heard.tla) is model-checked against a declarative reading of the statements over the raw delivery log "
+          "(MCHeard), the query schedule automaton against the closed-form schedule (MCSchedule). Weak readings are listed in the evidence file.")
+Q_TECH = "trace validation of the real daemon (simulated network, virtual time, scripted responders) by a TLC monitor over an explicit TLA+ ground-truth spec; spec model-checked"
+
+check("C03", "Every ServiceResolved of every iteration is judged by the TLC monitor TraceBrowse against the ground truth Heard.tla built from the "
+      "delivered packets: host/port from a live SRV of the instance, each address from a live A/AAAA of that host heard on exactly the tagged "
+      "interfaces, TXT from a live TXT record, a live PTR of the browsed type, never from expired / withdrawn / flush-displaced records; "
+      "Heard's incremental rules are model-checked (LiveOnlyWithinTtl, LatestGoverns, GoodbyeWithdraws, FlushRule).", Q_NOTE, Q_TECH, "DESIGN.md section 7 C03")
+check("C04", "Same monitor: whenever the daemon parks, every instance whose PTR, SRV, TXT and an address arrived (in any split / order / with duplicates and "
+      "foreign records) in packets that were for it and are live must have been reported ServiceFound and ServiceResolved; unresolved instances get "
+      "at most three follow-up queries 500 ms apart; the daemon's own questions must carry the labels of the received names.", Q_NOTE, Q_TECH, "DESIGN.md section 7 C04")
+check("C05", "Same monitor: whenever the daemon parks, every reported instance still has a live PTR (and every resolved one a live SRV and address) - "
+      "i.e. expiry, goodbye + 1 s and verify deadlines produce ServiceRemoved in the iteration at the due time; ServiceRemoved is never sent while PTR, "
+      "SRV and an address are live for more than a second; no ServiceResolved after removal without newer records.", Q_NOTE, Q_TECH, "DESIGN.md section 7 C05")
+check("C11", "Same monitor: every refresh query must be explained by an unused 80/85/90/95 % mark of a live record (once per mark, never after expiry, "
+      "marks restart on a fresh copy); a needed record whose mark fell due since the last iteration must be asked for; the cache-flush one-second "
+      "rule and TTL-0-means-one-second are part of Heard.tla (model-checked: FlushRule, GoodbyeWithdraws) and are exercised through C03/C05 clauses.",
+      Q_NOTE, Q_TECH, "DESIGN.md section 7 C11")
+check("C13", "Same monitor: per-channel protocol automaton (first event SearchStarted, ServiceFound before ServiceResolved, exactly the owed SearchStopped "
+      "in the iteration of stop / timeout / shutdown and nothing after it, cache-only browse never queries), no query for a stopped type or host "
+      "(falls out of C19.explained), PTRs of a stopped browse forgotten (no replay).", Q_NOTE, Q_TECH, "DESIGN.md section 7 C13")
+check("C17", "Same monitor over driver family 'resolve': AddressesFound only for live addresses received for that host (case-insensitive) on the tagged "
+      "interface, every such address reported, AddressesRemoved exactly when the record expired or was withdrawn, A+AAAA asked together on the "
+      "doubling schedule, 80 % refresh, SearchTimeout then SearchStopped at the deadline and silence afterwards.", Q_NOTE, Q_TECH, "DESIGN.md section 7 C17")
+check("C19", "Same monitor: every question the daemon asks must be explained by the doubling schedule of an open search (1, 2, 4 .. s capped at 3600 s; "
+      "browsing again replaces the schedule), a refresh mark, one of <= 3 follow-ups, or a verify; a due schedule slot must be used; the same "
+      "question is not asked more often than explained. The schedule automaton is model-checked against the closed form (MCSchedule).",
+      Q_NOTE, Q_TECH, "DESIGN.md section 7 C19")
+check("C20", "Same monitor over driver families 'flood' and 'browse': every get_metrics reply is compared with the ground truth: cached-ptr/srv/txt/addr <= "
+      "records received and still alive, timers proportional to live records and searches (strict clause: known finding; weaker 'popped' clause "
+      "enforced), and zero records / <= 1 timer once every TTL has passed and all searches are stopped.", Q_NOTE, Q_TECH, "DESIGN.md section 7 C20")
+
 def hooks_commits():
     try:
         out = subprocess.run(["git", "-C", "/repo", "log", "--format=%h %s"], stdout=subprocess.PIPE, text=True).stdout
